@@ -89,3 +89,9 @@ V('C02', 'empty-alter-not-owned', 'edb/schema/referencing.py', 'edb.schema.refer
             )''', 'C02.R5', 'empty-alter-owns')
 V('C02', 'inherited-status-one-sided', 'edb/schema/objects.py', 'edb.schema.objects.InheritingObject.compare_obj_field_value',
   '        if (fname in our_ifs) != (fname in their_ifs):', '        if fname in their_ifs - our_ifs:', 'C02.R5', 'inherited-status-symmetric')
+V('C02', 'owned-merge-guard-by-op-attr', 'edb/schema/ordering.py', 'edb.schema.ordering._trace_op',
+  'and not obj.get_owned(new_schema)', "and not op.get_attribute_value('owned')", 'C02.R6', '_trace_op:owned-objects-not-merged')
+V('C02', 'renamed-children-keep-module', 'edb/schema/delta.py', 'edb.schema.delta.RenameObject._canonicalize',
+  '                    module=self.new_name.module,\n', '                    module=ref_name.module,\n', 'C02.R6', 'children-follow-module')
+V('C02', 'unions-refreshed-only-with-pointer-subcommands', 'edb/schema/objtypes.py', 'edb.schema.objtypes.AlterObjectType._alter_finalize',
+  '        if not context.canonical:\n', '        if (\n            not context.canonical\n            and self.get_subcommands(metaclass=pointers.Pointer)\n        ):\n', 'C02.R6', 'unions-refreshed')
